@@ -454,3 +454,60 @@ Proof.
   destruct (lbuf_save_l_ok _ _ _ _ _ _ _ _ _ _ _ _ E) as [q [R C]]. exists q. split; [exact R|].
   rewrite C. unfold want, slice. rewrite Nat.sub_0_r, firstn_all. reflexivity.
 Qed.
+
+(* ------------------------------------------------------------------ the loop of :q / :xa at ANY position *)
+(* a save through one name leaves alone what a name that resolves elsewhere denotes, whatever its status *)
+Lemma lbuf_save_l_other now lines b e lk path force ts fs sch st fs' r p2 :
+  lbuf_save_l now lines b e lk path force ts fs sch = (st, fs', r) -> resolve lk p2 <> resolve lk path ->
+  target lk fs' p2 = target lk fs p2.
+Proof.
+  unfold lbuf_save_l, target. destruct (resolve lk path) as [q|] eqn:R.
+  - intros H N. destruct (lbuf_save_spec _ _ _ _ _ _ _ _ _ _ _ _ H) as [F _].
+    destruct (resolve lk p2) as [q2|]; [|reflexivity]. apply F. congruence.
+  - destruct (refuses force ts (-1)); intro H; inversion H; subst; reflexivity.
+Qed.
+Lemma bm_g_other now aw lk x fs sch blk st x' fs' r p2 :
+  bm_g bufs_modified now aw lk x fs sch = (blk, st, x', fs', r) -> resolve lk p2 <> resolve lk (b_path (fst x)) ->
+  target lk fs' p2 = target lk fs p2.
+Proof.
+  unfold bm_g, bufs_modified. destruct x as [bf g]. cbn [fst snd]. destruct (b_dirty bf); cbn [negb andb].
+  - destruct aw.
+    + destruct (lbuf_save_l now (b_lines bf) 0 (length (b_lines bf)) lk (b_path bf) false (b_mtime bf) fs sch) as [[st0 fs0] r0] eqn:E.
+      intros H N. inversion H; subst. exact (lbuf_save_l_other _ _ _ _ _ _ _ _ _ _ _ _ _ _ E N).
+    + intros H _. inversion H; subst. reflexivity.
+  - intros H _. inversion H; subst. reflexivity.
+Qed.
+Lemma mtime_of_target lk fs fs' p : target lk fs' p = target lk fs p -> mtime_of lk fs' p = mtime_of lk fs p.
+Proof. unfold mtime_of. intros ->. reflexivity. Qed.
+(* wherever the slot stands: if its file is newer than the stamp it remembers and the loop would have to save it, the loop does not
+   run to its end (no quit) and what the slot's path denotes is untouched -- provided the slots before it denote other files *)
+Lemma quit_scan_newer_any now aw all lk : forall (pre : list gbuf) (x : gbuf) (rest : list gbuf) fs sch k st tb' fs' r,
+  Forall (fun y : gbuf => resolve lk (b_path (fst x)) <> resolve lk (b_path (fst y))) pre ->
+  newer_rem lk fs x -> (all = true \/ b_dirty (fst x) = true) ->
+  quit_scan bufs_modified now aw all false lk (pre ++ x :: rest) fs sch = (k, st, tb', fs', r) ->
+  (exists i, k = Some i /\ i <= length pre) /\ st <> SOk /\ target lk fs' (b_path (fst x)) = target lk fs (b_path (fst x)).
+Proof.
+  induction pre as [|y pre IH]; intros x rest fs sch k st tb' fs' r P N D H.
+  - pose proof (quit_scan_newer_rem now aw all lk [] x rest fs sch (Forall_nil _) N D) as Q. cbn [app length] in Q, H. rewrite Q in H. inversion H; subst.
+    split; [exists 0; split; [reflexivity | apply Nat.le_refl]|]. split; [discriminate | reflexivity].
+  - inversion P as [|? ? P1 P2]; subst. cbn [app quit_scan] in H.
+    assert (NX : forall fs1, target lk fs1 (b_path (fst x)) = target lk fs (b_path (fst x)) -> newer_rem lk fs1 x).
+    { intros fs1 T. unfold newer_rem in *. rewrite (mtime_of_target lk fs fs1 _ T). exact N. }
+    destruct all.
+    + destruct (lbuf_save_l now (b_lines (fst y)) 0 (length (b_lines (fst y))) lk (b_path (fst y)) false (b_mtime (fst y)) fs sch) as [[st0 fs0] r0] eqn:E0.
+      pose proof (lbuf_save_l_other _ _ _ _ _ _ _ _ _ _ _ _ _ _ E0 P1) as T0.
+      destruct st0.
+      * destruct (quit_scan bufs_modified now aw true false lk (pre ++ x :: rest) fs0 r0) as [[[[k2 st2] rest'] fs2] r2] eqn:E.
+        destruct (IH x rest fs0 r0 _ _ _ _ _ P2 (NX fs0 T0) D E) as [[i [K L]] [Sn T]]. inversion H; subst.
+        split; [exists (S i); split; [reflexivity | cbn [length]; lia]|]. split; [exact Sn | rewrite T; exact T0].
+      * inversion H; subst. split; [exists 0; split; [reflexivity | cbn [length]; lia]|]. split; [discriminate | exact T0].
+      * inversion H; subst. split; [exists 0; split; [reflexivity | cbn [length]; lia]|]. split; [discriminate | exact T0].
+    + destruct (bm_g bufs_modified now aw lk y fs sch) as [[[[blk0 st0] y'] fs0] r0] eqn:E0.
+      pose proof (bm_g_other _ _ _ _ _ _ _ _ _ _ _ _ E0 P1) as T0.
+      destruct (bm_g_record _ _ _ _ _ _ _ _ _ _ _ E0) as [_ [Bk _]].
+      destruct blk0.
+      * inversion H; subst. split; [exists 0; split; [reflexivity | cbn [length]; lia]|]. split; [exact (proj1 Bk eq_refl) | exact T0].
+      * destruct (quit_scan bufs_modified now aw false false lk (pre ++ x :: rest) fs0 r0) as [[[[k2 st2] rest'] fs2] r2] eqn:E.
+        destruct (IH x rest fs0 r0 _ _ _ _ _ P2 (NX fs0 T0) D E) as [[i [K L]] [Sn T]]. inversion H; subst.
+        split; [exists (S i); split; [reflexivity | cbn [length]; lia]|]. split; [exact Sn | rewrite T; exact T0].
+Qed.
